@@ -1,0 +1,23 @@
+//go:build verif
+
+package node
+
+import (
+	"github.com/rigochain/rigo-go/ctrlers/account"
+	"github.com/rigochain/rigo-go/ctrlers/gov"
+	"github.com/rigochain/rigo-go/ctrlers/stake"
+	"github.com/rigochain/rigo-go/ctrlers/vm/evm"
+)
+
+// VerifCtrlers exposes the controllers to the verification harness (read-only use).
+func (ctrler *RigoApp) VerifCtrlers() (*account.AcctCtrler, *stake.StakeCtrler, *gov.GovCtrler, *evm.EVMCtrler) {
+	return ctrler.acctCtrler, ctrler.stakeCtrler, ctrler.govCtrler, ctrler.vmCtrler
+}
+
+// VerifCloseAll is Stop() plus the stores Stop() leaves open, tolerant of partial failure.
+func (ctrler *RigoApp) VerifCloseAll() {
+	defer func() { _ = recover() }()
+	func() { defer func() { _ = recover() }(); _ = ctrler.Stop() }()
+	func() { defer func() { _ = recover() }(); ctrler.stakeCtrler.VerifCloseRest() }()
+	func() { defer func() { _ = recover() }(); ctrler.govCtrler.VerifCloseRest() }()
+}
